@@ -7,7 +7,8 @@
       spends set c p    = c and p are members of [set] and c has an input whose
                           previous txid is p's
       acyclic set       = some rank  tx -> nat  strictly decreases from every
-                          member to every member it spends from
+                          member to every member it spends from (equivalently:
+                          the spend relation has no cycle, C14_acyclic_iff_no_cycle)
       before p c out    = out = l1 ++ p :: l2 ++ c :: l3
       dependency_sort pi1 pi2 set
                         = DependencySort(set) when makeGraph ranges over the
@@ -58,12 +59,30 @@ Theorem C14_model_outputs_admissible : forall set pi1 pi2 out,
 Proof. exact model_output_admissible. Qed.
 Print Assumptions C14_model_outputs_admissible.
 
-(** [acyclic] excludes exactly what it should: a set with a rank has no cycle
-    of the spend relation (in particular no self-spend). *)
-Theorem C14_acyclic_no_cycle : forall set,
-  acyclic set -> forall t, ~ Relation_Operators.clos_trans tx (spends set) t t.
-Proof. exact no_cycle_of_acyclic. Qed.
-Print Assumptions C14_acyclic_no_cycle.
+(** [acyclic] is the usual notion: on a set with distinct ids a rank exists
+    exactly when the spend relation has no cycle (rank = longest spend path).
+    So the theorem above holds under the hypothesis "no cycle" as well. *)
+Theorem C14_acyclic_iff_no_cycle : forall set,
+  NoDup (map txid set) ->
+  (acyclic set <-> forall t, ~ Relation_Operators.clos_trans tx (spends set) t t).
+Proof.
+  intros set Hnd. split.
+  - exact (no_cycle_of_acyclic set).
+  - exact (acyclic_of_no_cycle set Hnd).
+Qed.
+Print Assumptions C14_acyclic_iff_no_cycle.
+
+Theorem C14_dependency_sort_no_cycle : forall (set pi1 : list tx) (pi2 : list N),
+  NoDup (map txid set) ->
+  (forall t, ~ Relation_Operators.clos_trans tx (spends set) t t) ->
+  Permutation pi1 set ->
+  Permutation pi2 (map txid set) ->
+  exists out,
+    dependency_sort pi1 pi2 set = Some out
+    /\ Permutation out set
+    /\ forall p c, spends set c p -> before p c out.
+Proof. exact dependency_sort_correct_no_cycle. Qed.
+Print Assumptions C14_dependency_sort_no_cycle.
 
 (* ------------------------------------------------------------------ *)
 (** Non-vacuity.  A diamond 1 -> {2,3} -> 4 in which 2 spends two outputs of 1
